@@ -11,6 +11,9 @@ fn arg(args: &[String], name: &str) -> Option<String> {
 }
 
 fn main() {
+    // sysinfo (used by get_stats at every server start) scans /proc on rayon's global pool, whose idle workers
+    // spin; many harness processes run in parallel, so keep that pool to one thread.
+    std::env::set_var("RAYON_NUM_THREADS", "1");
     let args: Vec<String> = std::env::args().collect();
     if args.len() < 2 {
         eprintln!("usage: iggy-verif <lens> --in scenarios.jsonl --out trace.ndjson --work dir");
